@@ -788,8 +788,13 @@ func (r *runner) emitCall(a act, withObs bool) {
 	if a.Op == "clone" {
 		hs = append(hs, a.H2)
 	}
-	if !full && r.dumpOwn {
-		dumps = hs // the structure of what was written, even when the other handles are not observed
+	if r.dumpOwn {
+		// the structure of what was written (each clone was dumped after its own write; a closing
+		// observation dumps the original only: many dumps in one event are slow to validate)
+		dumps = hs
+		if len(hs) == 0 {
+			dumps = []int{1}
+		}
 	}
 	o, msg := r.safeObs(full, hs, dumps)
 	if msg != "" {
